@@ -8,6 +8,9 @@
    op 5  ConceptLattice.from_context(K, n_projections_to_binarize = thr): concepts + covers, or KeyError
    op 6  close_by_one(K, thr): the yielded concepts, as a list
    op 7  close_by_one_objectwise(K): the yielded concepts, as a list
+   op 8  PatternConcept.from_objects(objs, K, is_extent = (thr = 1)): extent_i, extent (names),
+         intent_i, intent (by name)
+   op 9  describe_pattern({name: description}): the (name, description) pairs that are printed
    Known open findings (code + 10*k when the guard of finding k is false):
      k = 1 (D16) object-wise path: the conventional closure of the empty set is not below every
                  object's closure;
@@ -22,6 +25,7 @@ Inductive c14_out :=
 | OBin (t : table) (nbin : nat) (onames : list nat) (n_attr_names : nat)
 | OLattice (cs : list (list nat * list desc)) (covers : list (list nat * list nat))
 | OConcepts (cs : list (list nat * list desc))
+| OViews (ext_i ext : list nat) (int_i : list desc) (int_named : list (nat * desc))
 | OKeyErr (name : nat)
 | OErr (kind : nat).
 
@@ -91,6 +95,12 @@ Definition c14_same (c : c14_case) : bool :=
   | 7, OConcepts cs =>
       let m := map pc_pair (mv_cbo_objectwise K) in
       concepts_same_set cs m && Nat.eqb (length cs) (length m) && Bool.eqb (has_dup cs) (has_dup m)
+  | 8, OViews ei en ii inn =>
+      let v := pc_from_objects_views K (nth 0 (m_subsets c) []) (Nat.eqb (m_thr c) 1) in
+      nat_list_eqb ei (pv_ext_i v) && nat_list_eqb en (pv_ext v)
+      && descs_eqb ii (map snd (pv_int_i v)) && ddict_eqb inn (pv_int v)
+  | 9, ODescs l => match describe_entries K (m_ds c) with Some r => ddict_eqb l r | None => false end
+  | 9, OErr 2 => match describe_entries K (m_ds c) with None => true | Some _ => false end
   | _, _ => false
   end.
 
@@ -165,6 +175,23 @@ Definition c14_ok (c : c14_case) : bool :=
       lattice_spec_ok K n cs && pairs_same_set cov (covers_spec (map fst cs))
       && Nat.eqb (length cov) (length (covers_spec (map fst cs)))
   | 6, OConcepts cs | 7, OConcepts cs => lattice_spec_ok K n cs
+  | 8, OViews ei en ii inn =>
+      let objs := nth 0 (m_subsets c) [] in
+      nat_list_eqb ei (if Nat.eqb (m_thr c) 1 then objs else mv_cl_spec K n objs)
+      && nat_list_eqb en (map (fun g => nth g (mv_onames (m_K c)) 0) ei)
+      && descs_eqb ii (mv_int_spec K objs)
+      && ddict_eqb inn (combine (mv_pnames (m_K c)) (mv_int_spec K objs))
+  | 9, ODescs l =>
+      (* every name known; the pairs in dict order, without the AttributePS entries whose
+         description is False (they print as the empty text) *)
+      forallb (fun nd => match first_index_from' 0 (mv_pnames (m_K c)) (fst nd) with Some _ => true | None => false end) (m_ds c)
+      && ddict_eqb l (filter (fun nd => match first_index_from' 0 (mv_pnames (m_K c)) (fst nd) with
+                                        | Some i => match nth i K (CAttr []), snd nd with
+                                                    | CAttr _, DAttr false => false
+                                                    | _, _ => true end
+                                        | None => true end) (m_ds c))
+  | 9, OErr 2 =>
+      negb (forallb (fun nd => match first_index_from' 0 (mv_pnames (m_K c)) (fst nd) with Some _ => true | None => false end) (m_ds c))
   | _, _ => false
   end.
 
@@ -185,6 +212,9 @@ Definition c14_show (c : c14_case) :=
    | 4 => OBin (mv_binarize K) (mv_n_bin_attrs K) (mv_onames K) (length (mv_bin_attrs K))
    | 5 => match mv_from_context K (m_thr c) with Some m => OConcepts (map pc_pair m) | None => OErr 1 end
    | 6 => OConcepts (map pc_pair (mv_close_by_one K (m_thr c)))
+   | 8 => let v := pc_from_objects_views K (nth 0 (m_subsets c) []) (Nat.eqb (m_thr c) 1) in
+          OViews (pv_ext_i v) (pv_ext v) (map snd (pv_int_i v)) (pv_int v)
+   | 9 => match describe_entries K (m_ds c) with Some r => ODescs r | None => OErr 2 end
    | _ => OConcepts (map pc_pair (mv_cbo_objectwise K))
    end,
    mv_concepts_spec (mv_cols K) (mv_n K)).
